@@ -21,6 +21,7 @@ structure Link where
 structure LCell where
   cell : Cell Str
   link : Link := {}
+  deriving DecidableEq, Repr
 
 /-- What stands between `ESC ]` and `ESC \`: `8;<params>;<url>`, parameters dropped for the empty URL. -/
 def osc8Payload (l : Link) : Str := 0x38 :: 0x3B :: ((if l.url = [] then [] else l.params) ++ 0x3B :: l.url)
@@ -40,6 +41,7 @@ def osc8Bytes (l : Link) : Str :=
 inductive LTok
   | tok (t : Tok Seq Str)
   | link (payload : Str)
+  deriving DecidableEq, Repr
 
 def ltokBytes : LTok → Str
   | .tok t => tokBytes t
@@ -95,6 +97,82 @@ def ssParseLToks (sgr : Style → Seq → Except Panic Style) : Style → List L
     else
       match sgr s ps with
       | .ok s' => ssParseLToks sgr s' r
+      | .error e => .error e
+
+/-! ## `NewStyledString` with the hyperlink fields (since the `fix:` for F119)
+
+`style` in the Go loop is a `Style` *with* `Hyperlink` / `HyperlinkParams`; here the pair (`Style`, `Link`).
+Everything that assigns `style = defaultStyle` (`ESC [ m`, `case "0"`) also restores the default's hyperlink. -/
+
+/-- `strings.Cut(s, sep)` for a one-byte separator: before and after the first `sep`; none: everything, and an empty rest. -/
+def cutByte (sep : Nat) : Str → Str × Str
+  | [] => ([], [])
+  | b :: r => if b = sep then ([], r) else ((cutByte sep r).1.cons b, (cutByte sep r).2)
+
+/-- `style.HyperlinkParams, style.Hyperlink, _ = strings.Cut(seq, ";")` -/
+def linkOfSeq (seq : Str) : Link := ⟨(cutByte 0x3B seq).2, (cutByte 0x3B seq).1⟩
+
+/-- Does the parameter loop run `case "0": style = defaultStyle` for this parameter (when it is not skipped by `i += n`)? -/
+def isResetParam (cfg : Cfg) (subs : List SubTok) : Bool :=
+  match subs with
+  | h :: _ => h.lab == some 0 && cfg.labels.contains 0
+  | [] => false
+
+/-- `Sgr.ssLoopK` with the hyperlink carried along: the style part is `ssOne`'s, the link is left alone except by `case "0"`. -/
+def ssLoopKL (cfg : Cfg) (dflt : Style) (dl : Link) :
+    Nat → List (List SubTok) → Style → Link → Except Panic (Style × Link)
+  | _, [], s, l => .ok (s, l)
+  | k + 1, _ :: rest, s, l => ssLoopKL cfg dflt dl k rest s l
+  | 0, subs :: rest, s, l =>
+    match ssOne cfg dflt s subs rest with
+    | .error e => .error e
+    | .ok (s', k) => ssLoopKL cfg dflt dl k rest s' (if isResetParam cfg subs then dl else l)
+
+/-- The `for len(s) > 0` loop of `NewStyledString`, hyperlink fields included (`SgrBytes.nssLoop` is its projection
+    to the cells without links: `Lemmas.SgrLinksFull.nssLoopL_cells`). -/
+def nssLoopL (cl : Str → Nat) (dflt : Style) (dl : Link) : Nat → Style → Link → Str → Except Panic (List LCell)
+  | 0, _, _, _ => .ok []
+  | _ + 1, _, _, [] => .ok []
+  | fuel + 1, st, lk, c :: r =>
+    if hasCsiPrefix (c :: r) then
+      let cut := cutM ((c :: r).drop 2)
+      if cut.2.isEmpty then .ok []
+      else if cut.1.isEmpty then nssLoopL cl dflt dl fuel dflt dl cut.2
+      else
+        match ssLoopKL ssCfg dflt dl 0 (splitParams cut.1) st lk with
+        | .error e => .error e
+        | .ok (st', lk') => nssLoopL cl dflt dl fuel st' lk' cut.2
+    else if hasOsc8Prefix (c :: r) then
+      let cut := cutST ((c :: r).drop 4)
+      nssLoopL cl dflt dl fuel st (linkOfSeq cut.1) cut.2
+    else
+      let n := max 1 (cl (c :: r))
+      match nssLoopL cl dflt dl fuel st lk ((c :: r).drop n) with
+      | .ok cs => .ok (⟨⟨(c :: r).take n, st⟩, lk⟩ :: cs)
+      | .error e => .error e
+
+/-- `vx.NewStyledString(s, defaultStyle).Cells`: graphemes, styles, hyperlinks and hyperlink parameters. -/
+def newStyledStringBL (cl : Str → Nat) (dflt : Style) (dl : Link) (s : Str) : Except Panic (List LCell) :=
+  nssLoopL cl dflt dl s.length dflt dl s
+
+/-- The CSI case on a parameter list printed in canonical decimal, hyperlink carried along. -/
+def ssSeqL (dflt : Style) (dl : Link) (s : Style) (l : Link) (ps : Seq) : Except Panic (Style × Link) :=
+  if ps.isEmpty then .ok (dflt, dl) else ssLoopKL ssCfg dflt dl 0 (ps.map (·.map tokN)) s l
+
+/-- `NewStyledString` on tokens, hyperlinks restored: an OSC 8 token sets the link from its payload `8;params;url`. -/
+def ssParseLToksL (sgr : Style → Link → Seq → Except Panic (Style × Link)) :
+    Style → Link → List LTok → Except Panic (List LCell)
+  | _, _, [] => .ok []
+  | s, _, .link p :: r => ssParseLToksL sgr s (linkOfSeq (p.drop 2)) r
+  | s, l, .tok (.text g) :: r =>
+    match ssParseLToksL sgr s l r with
+    | .ok cs => .ok (⟨⟨g, s⟩, l⟩ :: cs)
+    | .error e => .error e
+  | s, l, .tok (.sgr ps) :: r =>
+    if r.isEmpty then .ok []
+    else
+      match sgr s l ps with
+      | .ok (s', l') => ssParseLToksL sgr s' l' r
       | .error e => .error e
 
 end VaxisModel.Model.SgrLinks
